@@ -10,7 +10,7 @@
 From Coq Require Import ZArith List Bool Arith.
 From Texel Require Import Workers.Workers Workers.WorkersLemmas Workers.WorkersInv
   Workers.WorkersTheorems Workers.WorkersLive Workers.WorkersLiveProofs Workers.WorkersExamples
-  Workers.Checker Workers.WorkersRestart.
+  Workers.Checker Workers.WorkersRestart Workers.Race Workers.Access Workers.HandshakeProofs.
 Import ListNotations.
 
 (** stopAckWaitChildren of every communicator is exactly the number of its children whose
@@ -98,6 +98,18 @@ Theorem C10_reconfiguration_sound : forall N parent s keep N' parent',
   (nbest s' <= sid s' <= S (nbest s')).
 Proof. exact reconfiguration_sound. Qed.
 Print Assumptions C10_reconfiguration_sound.
+
+(** option changes end with the engine ready for the next command: in the LTS extended with the
+    option hand-shake (Workers/Access.v: setOptionWhenIdle / setOptions / waitOptionsSet; [xreach]
+    = reachable by any schedule, with its access trace), whenever the UCI thread gets past
+    waitOptionsSet — the answer to isready, stop ([XWaitOpt]) or the set-up of go / go ponder —
+    no option is pending and none is being applied.  Tied to the code by the H5b events
+    SETOPT / OPTTAKE / WOPT / RDFIN in the trace replay (Checker.v: code 30). *)
+Theorem C10_options_applied_before_ready : forall N parent x tr xl x',
+  xreach N parent x tr -> xstep N parent true x xl = Some x' ->
+  (xl = XWaitOpt \/ exists p, xl = XL (LE (EGo p))) -> options_settled x.
+Proof. exact options_applied_before_ready. Qed.
+Print Assumptions C10_options_applied_before_ready.
 
 (** non-vacuity: concrete schedules reaching the states the theorems speak about *)
 Theorem C10_examples :
